@@ -554,6 +554,10 @@ func (nfs *Nfs) doRemove(dfh nfstypes.Nfs_fh3, name nfstypes.Filename3, isdir bo
 	if isdir && !dir.IsDirEmpty(inodes[0], op) {
 		return op, nfstypes.NFS3ERR_INVAL
 	}
+	if !isdir && inodes[0].Kind == nfstypes.NF3DIR && !dir.IsDirEmpty(inodes[0], op) {
+		// REMOVE of a directory that still has entries would orphan them
+		return op, nfstypes.NFS3ERR_NOTEMPTY
+	}
 	ok := dir.RemName(inodes[1], op, name)
 	if !ok {
 		util.DPrintf(0, "Remove failed\n")
